@@ -188,7 +188,8 @@ def extract_axis_name(data: Any, *, axis_name: Optional[str] = None) -> Optional
 
     """
     if not axis_name:
-        if hasattr(data, "name"):
+        if hasattr(data, "name") and not hasattr(data, "dask"):
+            # (The name of a dask array is the key of its task graph)
             return _normalize_axis_name(data.name)  # type: ignore
         elif (
             hasattr(data, "fields")
